@@ -1412,6 +1412,72 @@ Section Flat.
       rewrite (HF2 stk2 f' Hd2 (Hfr 2%nat)) by lia. reflexivity.
   Qed.
 
+  Theorem ifeq_full x more :
+    FlatCall.ifeq_full_ok pfnames lib x more = true -> o_parserfns opts = true -> o_tfn opts = [] -> o_pfn opts = [] ->
+    exists F, forall stk fuel, (length stk < 98)%nat -> fresh_items stk x = true ->
+      forallb (fresh_items stk) more = true -> (F <= fuel)%nat ->
+      expand_T fuel stk true ((ifeq_head ++ x) :: more) = Some (FlatCall.ifeq_full_result lib x more).
+  Proof.
+    intros Hok Hpf Htfn Hpfn. unfold FlatCall.ifeq_full_ok in Hok. apply andb_true_iff in Hok. destruct Hok as [Hc Hm].
+    assert (Hhead : forallb flat_item (ifeq_head ++ x) = true).
+    { rewrite forallb_app, Hc. reflexivity. }
+    destruct (expand_items_at (ifeq_head ++ x) Hhead Htfn Hpfn) as [Fc HFc].
+    destruct (expand_items_at (nth 0 more []) (nth_flat more 0 Hm) Htfn Hpfn) as [F0 HF0].
+    destruct (expand_items_at (nth 1 more []) (nth_flat more 1 Hm) Htfn Hpfn) as [F1 HF1].
+    destruct (expand_items_at (nth 2 more []) (nth_flat more 2 Hm) Htfn Hpfn) as [F2 HF2].
+    set (x' := page_result x). set (y' := page_result (nth 0 more [])).
+    assert (Hx' : plain x' = true) by (apply page_result_plain; exact Hc).
+    assert (Hy' : plain y' = true) by (apply page_result_plain, nth_flat; exact Hm).
+    exists (Fc + length x' + F0 + F1 + F2 + 20)%nat.
+    intros stk fuel Hdepth Hfc Hfresh Hf. destruct fuel as [|f]; [lia|]. destruct f as [|f']; [lia|].
+    rewrite expand_T_S. replace (Nat.leb 100 (length stk)) with false by (symmetry; apply Nat.leb_gt; lia).
+    assert (Hfr0 : fresh_items (stk ++ [FTemplateName]) (ifeq_head ++ x) = true).
+    { rewrite fresh_items_tn. unfold fresh_items. rewrite forallb_app. fold (fresh_items stk x). rewrite Hfc. reflexivity. }
+    rewrite (HFc (stk ++ [FTemplateName]) (S f') ltac:(rewrite app_length; cbn; lia) Hfr0) by lia.
+    rewrite page_result_app, (page_result_of_plain ifeq_head) by reflexivity. fold x'.
+    cbv beta iota zeta. rewrite strip_ifeq_head.
+    assert (Hcodes : codes (ifeq_head ++ rstrip_i x') = 35 :: 105 :: 102 :: 101 :: 113 :: 58 :: codes (rstrip_i x')) by reflexivity.
+    rewrite Hcodes. cbn [index_of].
+    replace (35 =? 58) with false by reflexivity. replace (105 =? 58) with false by reflexivity.
+    replace (102 =? 58) with false by reflexivity. replace (101 =? 58) with false by reflexivity.
+    replace (113 =? 58) with false by reflexivity. replace (58 =? 58) with true by reflexivity.
+    cbv beta iota. cbn [firstn].
+    assert (Hcanon : Expand.canon_pf pfnames [35; 105; 102; 101; 113] = [35; 105; 102; 101; 113]).
+    { unfold Expand.canon_pf. cbn [collapse_ws_us is_space N.eqb orb]. destruct (in_names _ pfnames); reflexivity. }
+    rewrite Hcanon.
+    assert (Hcl : Expand.classify_pf pfnames [35; 105; 102; 101; 113] = PfIfeq) by reflexivity. rewrite Hcl.
+    cbn [skipn FlatCall.ifeq_head chars s_ifeq map app].
+    rewrite expand_pf_S. rewrite Hpf. cbn [negb].
+    set (c0 := lstrip_i (rstrip_i x')).
+    assert (Hc0 : plain c0 = true) by (apply plain_lstrip, plain_rstrip; exact Hx').
+    assert (Lc0 : (length c0 <= length x')%nat).
+    { unfold c0, rstrip_i. assert (Ll : forall y, (length (lstrip_i y) <= length y)%nat).
+      { induction y as [|z y IHy]; [cbn; lia|]. cbn [lstrip_i]. destruct (sp_item z); cbn; lia. }
+      etransitivity; [apply Ll|]. rewrite rev_length. etransitivity; [apply Ll|]. rewrite rev_length. lia. }
+    set (stk2 := ((stk ++ [FFn [35; 105; 102; 101; 113]]) ++ [FFn [35; 105; 102; 101; 113]])).
+    assert (Hd2 : (length stk2 < 100)%nat) by (unfold stk2; rewrite !app_length; cbn; lia).
+    assert (Hfr : forall n, fresh_items stk2 (nth n more []) = true).
+    { intros n. unfold stk2. rewrite !fresh_items_fn. apply nth_fresh. exact Hfresh. }
+    cbn [nth].
+    rewrite (expand_recurse_plain pfnames lib opts c0 Hc0) by lia.
+    rewrite (HF0 stk2 f' Hd2 (Hfr 0%nat)) by lia. fold y'.
+    cbn [option_map].
+    assert (Hstrip : strip_i c0 = strip_i x').
+    { unfold c0, strip_i. rewrite lstrip_idem, lstrip_rstrip_comm, rstrip_idem. reflexivity. }
+    rewrite Hstrip.
+    assert (Hsx : plain (strip_i x') = true) by (apply plain_strip; exact Hx').
+    assert (Hsy : plain (strip_i y') = true) by (apply plain_strip; exact Hy').
+    unfold FlatCall.ifeq_full_result. fold x' y'.
+    assert (Hpl : forall e, plain e = true -> forallb is_ch e = true) by (intros e He; exact He).
+    rewrite (Hpl _ Hsx), (Hpl _ Hsy), andb_true_r, andb_true_r.
+    destruct (mw_equal (codes (strip_i x')) (codes (strip_i y'))) eqn:Eq.
+    - rewrite (HF1 stk2 f' Hd2 (Hfr 1%nat)) by lia. reflexivity.
+    - assert (Hne : str_eqb (codes (strip_i x')) (codes (strip_i y')) = false).
+      { unfold mw_equal in Eq. apply orb_false_iff in Eq. exact (proj1 Eq). }
+      rewrite Hne.
+      rewrite (HF2 stk2 f' Hd2 (Hfr 2%nat)) by lia. reflexivity.
+  Qed.
+
   (** #switch with calls in the values of its cases *)
   Lemma expand_items_all (vs : list enc) :
     forallb (forallb flat_item) vs = true -> o_tfn opts = [] -> o_pfn opts = [] ->
